@@ -3,5 +3,5 @@ ORACLES_V = ["secp256k1_scalar_inverse_var", "secp256k1_scalar_mul", "secp256k1_
 UNITS = [
     U("C01.sig_verify", ["C01"], "harness/C01/sig_verify.c", "h_sig_verify", replace=ORACLES_V, assumed=ORACLES_V,
       functions=["secp256k1_ecdsa_sig_verify", "secp256k1_scalar_get_b32", "secp256k1_fe_set_b32_limit", "secp256k1_fe_cmp_var", "secp256k1_fe_add", "secp256k1_gej_set_ge"],
-      timeout=600, min_obl=100, replay=False),
+      timeout=600, min_obl=1503, replay=False),
 ]
